@@ -43,6 +43,10 @@ FUNCS = {
 }
 
 
+# plain function names that coincide with names in TEMP_POOL
+PLAIN_ALIAS = {"<func>f": "u", "<func>g": "v", "<func>F": "w"}
+
+
 class Features:
     NAMES = ["loops", "var_bounds", "zero_trip", "nested_if", "else_", "if3", "strings",
              "fresh", "calls", "kwargs", "multi_assign", "arrays", "ifexpr", "phases",
@@ -154,6 +158,8 @@ class ScriptGen:
             setattr(self.F, name, False)
         self.cfg = cfg or {}
         self.unique_sites = unique_sites
+        with tape.span("plain_func_names"):
+            self.plain_func_names = bool(self.F.adv_names and tape.chance(0.3, "plain_func_names"))
         self.func_alias = {}
         self.site_n = 0
         self.max_ops = max_ops
@@ -173,6 +179,11 @@ class ScriptGen:
         if self.unique_sites:
             name = "%s_s%03d" % (fn, self.site_n)
             self.site_n += 1
+            self.func_alias[name] = fn
+            fn = name
+        elif self.plain_func_names and fn in PLAIN_ALIAS:
+            # a function registered under a plain name that the program also uses for a variable
+            name = PLAIN_ALIAS[fn]
             self.func_alias[name] = fn
             fn = name
         self.used_funcs.add(fn)
